@@ -458,13 +458,13 @@ POW_BITS = 4          # exponents i, j <= 8 fit 4 bits
 def bounds():
     q = dict(
         divmod=8, gcd=4, ring2=8, ring_assoc=5, ring_distrib=5,
-        field_pairs=6, field_distrib=5, field_assoc=4, field_single=8, field_pow=4, field_trace=6, field_conj=6,
+        field_pairs=6, field_distrib=5, field_assoc=5, field_single=8, field_pow=4, field_trace=6, field_conj=6,
         minpoly=4, prim=12, nzd=12,
     )
     t = dict(
         divmod=12, gcd=6, ring2=12, ring_assoc=6, ring_distrib=8,
         field_pairs=8, field_distrib=7, field_assoc=6, field_single=10, field_pow=6, field_trace=8, field_conj=8,
-        minpoly=5, prim=16, nzd=16,
+        minpoly=6, prim=16, nzd=16,
     )
     return tier(q, t)
 
@@ -513,7 +513,7 @@ def build_items():
     field_items("field.inverse", B["field_single"], 8)
     field_items("field.frobenius", B["field_pairs"], 12)
     field_items("field.distrib", B["field_distrib"], 12)
-    field_items("field.assoc", B["field_assoc"], 11, stretch_from=B["field_assoc"] + 1, stretch_to=tier(B["field_assoc"] + 1, 8))
+    field_items("field.assoc", B["field_assoc"], 11)
     field_items("field.pow_def", B["field_pow"], 8)
     field_items("field.pow_add", B["field_pow"], 10)
     field_items("field.trace", B["field_trace"], 10)
@@ -533,9 +533,10 @@ def build_items():
     for m in range(1, B["prim"] + 1):
         if m == 1:
             its.append(dict(kind="prim", clause="field.primitive_order_exact", m=m, config=f"GF(2^{m})", cost=1))
-        for L in range(1, m + 1 if m > 1 else 0):     # one item per bit length of the exponent (= trip count of __pow__)
+        for L in range(1, (min(m, 13) if m == 16 else m) + 1 if m > 1 else 0):     # one item per bit length of the exponent (= trip count of __pow__)
             its.append(dict(kind="prim", clause="field.primitive_order_exact", m=m, L=L, config=f"GF(2^{m}), bit_length(e) = {L}", cost=2 ** L * m * 4,
                             stretch=(m == 16 and L >= 12)))     # probed: m = 16 is decided up to 11-bit exponents within the item timeout
+        # (m = 16, L = 14..16 were probed `unknown` at 500 s and are left out; L = 12, 13 run as stretch)
         its.append(dict(kind="prim_full", clause="field.primitive_order_divides", m=m, config=f"GF(2^{m})", cost=m))
     for name in MUTANTS:
         its.append(dict(kind="mutant", clause="c18.mutant_selftest", config=name, cost=50))
@@ -639,7 +640,7 @@ def field_unroll(m):
 def w_field(item, F=None, mutants=None, patch=None):
     cl = item["clause"]
     m = item["m"]
-    law, kinds, text = FIELD[cl] if cl in FIELD else FIELD_EXTRA[cl]
+    law, kinds, text = FIELD[cl]
     W = 2 * m + 4
     I = make_interp(W, unroll=field_unroll(m), mutants=mutants)
     F = F or FiniteBifield(m)
@@ -660,11 +661,8 @@ def w_field(item, F=None, mutants=None, patch=None):
     return e2.obligations(PID, cl, item["config"], I, lambda: I.call(law, [F] + [e2.SI(vs[n]) for n in names]), vs, assume,
                           nat, tally, text=text, timeout_s=tier(100, 400), stretch=bool(item.get("stretch")),
                           cross_check=cross_pick(cl + item["config"]),
-                          block_of=(lambda w: z3.BoolVal(False)) if config_level else None,
+                          config_level=config_level,
                           describe=lambda w, info: f"{text} fails in FiniteBifield({m}) (modulus {bin(F.modulus.value)}) at {w}: {info}")
-
-
-FIELD_EXTRA = {}
 
 
 def w_field_raises(item):
@@ -975,13 +973,14 @@ def main():
     chk.bound("field.add_group / mul_comm / frobenius", f"every m = 1..{B['field_pairs']}, all pairs (add_group: triples)")
     chk.bound("field.identity / inverse", f"every m = 1..{B['field_single']}, all elements")
     chk.bound("field.distrib", f"every m = 1..{B['field_distrib']}, all triples")
-    chk.bound("field.assoc", f"every m = 1..{B['field_assoc']}, all triples" + tier(f"; m = {B['field_assoc'] + 1} stretch", f"; m = {B['field_assoc'] + 1}..8 stretch"))
+    chk.bound("field.assoc", f"every m = 1..{B['field_assoc']}, all triples (m = 7, 8 not reached: probed `unknown` at 400 s per cube)")
     chk.bound("field.pow_def / pow_add", f"every m = 1..{B['field_pow']}, all elements, exponents i, j <= 8 symbolic")
     chk.bound("field.trace", f"every m = 1..{B['field_trace']}, all pairs")
     chk.bound("field.conjugates", f"every m = 1..{B['field_conj']}, all elements")
     chk.bound("field.minpoly_vanishes / minpoly_irreducible", f"every m = 1..{B['minpoly']}, all elements (irreducible: all q, r of degree >= 1 and < m)")
     chk.bound("field.minpoly_least", f"every m = 1..{B['minpoly']}, all elements x all non-zero f with deg f < m")
-    chk.bound("field.primitive_order_exact / primitive_order_divides", f"every m = 1..{B['prim']}, all exponents 1 <= e < 2^m - 1")
+    chk.bound("field.primitive_order_exact / primitive_order_divides", f"every m = 1..{min(B['prim'], 15)}, all exponents 1 <= e < 2^m - 1, one item per bit length of e"
+              + ("; m = 16: alpha^(2^16-1) = 1 and all exponents below 2^11 claimed, 12- and 13-bit exponents stretch, 14..16-bit exponents not reached" if B['prim'] >= 16 else ""))
     chk.bound("field.no_zero_divisors", f"every m = 1..{B['nzd']}, all pairs of non-zero elements (a <= b by commutativity of the query only)")
     chk.bound("bit-vector widths", "2.D+5 (two-operand polynomial laws), 3.D+5 (three-operand), 2.m+4 (field laws); every << + - * carries a no-overflow side condition")
     chk.bound("loops", "merge mode: unrolled under guards, unwinding assertion (guard after the last unrolling unsatisfiable) decided by z3 per path; __pow__, conjugates, minimal_polynomial, trace: fork per trip count; unwinding cap 80")
@@ -997,7 +996,7 @@ def main():
     chk.extra["work_items"] = len(items)
     chk.extra["mutants"] = list(MUTANTS)
     chk.extra["engine"] = "E2: AST interpretation of the real source over QF_BV, merge-on-if, guarded loop unrolling / fork per trip count, z3 5.x; cvc5 cross-check on a seeded sample of unsat obligations"
-    chk.run_items(MOD, "work", items, budget_s=tier(900, 3300))
+    chk.run_items(MOD, "work", items, budget_s=tier(600, 2400))
     chk.finish(min_obligations=100)
 
 
